@@ -265,7 +265,12 @@ pub async fn op_editor_roundtrip(sc: Value) -> Value {
         let (sv, tv) = (1 + rng.below(1 << 30), 1 + rng.below(1 << 30));
         let (se, te) = (rel(86400 * (2 + rng.below(100) as i64)), rel(86400 * (1 + rng.below(30) as i64)));
         ed.snapshot_version(nz(sv)).snapshot_expires(se).timestamp_version(nz(tv)).timestamp_expires(te);
-        let signing: Vec<K> = if inadequate { all_keys.iter().enumerate().filter(|(i, _)| rng.below(3) != 0 || *i == 0).map(|(_, k)| k.clone()).collect() } else { all_keys.clone() };
+        let mut signing: Vec<K> = if inadequate { all_keys.iter().enumerate().filter(|(i, _)| rng.below(3) != 0 || *i == 0).map(|(_, k)| k.clone()).collect() } else { all_keys.clone() };
+        if inadequate && rng.below(2) == 0 {
+            // the same key source given more than once must not count more than once towards a threshold
+            let dup = signing.clone();
+            signing.extend(dup);
+        }
         log.push(format!("sign with {} of {} keys", signing.len(), all_keys.len()));
         let signed = match ed.sign(&boxed(&signing)).await {
             Ok(s) => s,
